@@ -51,6 +51,32 @@ pub fn c01(out: &mut Out, thorough: bool) {
             let m = *rng.pick(&triples);
             out.case("islegal-random", nt, format!("pos islegal {p} {}", mv_str(m)), || b2s(b.is_legal(m)).into());
         }
+        // histories: the move set AFTER a move, against the successor the RULES prescribe (not the one the implementation
+        // reports): a stale right, marker or cached set shows as a wrong move set one ply later.  All the rare moves and a
+        // couple of ordinary ones from every position.
+        let mut ordinary = 0;
+        for &m in legal.iter() {
+            let mover = b.raw().get(m.source).map(|x| x.1);
+            let victim = b.raw().get(m.dest).map(|x| x.1);
+            let (sf, df) = (m.source.to_u8() % 8, m.dest.to_u8() % 8);
+            let (sr, dr) = (m.source.to_u8() / 8, m.dest.to_u8() / 8);
+            let rare = m.piece.is_some()
+                || (mover == Some(Piece::Pawn) && victim.is_none() && sf != df)
+                || (mover == Some(Piece::Pawn) && (sr as i32 - dr as i32).abs() == 2)
+                || (mover == Some(Piece::King) && v.rights != 0)
+                || (mover == Some(Piece::Rook) && v.rights != 0)
+                || (victim == Some(Piece::Rook) && v.rights != 0);
+            if !rare {
+                ordinary += 1;
+                if ordinary > 2 {
+                    continue;
+                }
+            }
+            out.case("moves-after-a-move", nt, format!("pos legals.after {p} {}", mv_str(m)), || match b.move_new(m) {
+                Some(nb) => sorted_moves(nb.legals()),
+                None => "refused".into(),
+            });
+        }
         // all 20480 triples on a subsample
         if idx % (if thorough { 100 } else { 400 }) == 0 {
             for &m in &triples {
@@ -768,6 +794,45 @@ pub fn c06(out: &mut Out, thorough: bool) {
     }
     for f in crowded_fens(&mut rng, if thorough { 5_000 } else { 400 }) {
         emit(out, "crowded", f.as_bytes(), &mut rng);
+    }
+    // castling rights against what stands on the home squares: every single right and a few pairs x the corner
+    // holding the right rook, the enemy's rook, another own piece, or nothing x the king at home or next to it
+    {
+        let corners: [(u8, usize, usize, bool); 4] = [(1, 7, 4, true), (2, 0, 4, true), (4, 63, 60, false), (8, 56, 60, false)];
+        for &(bit, corner, khome, white) in corners.iter() {
+            for content in 0..5 {
+                for king_at_home in [true, false] {
+                    for extra_rights in [0u8, 15] {
+                        let mut sq = [b'.'; 64];
+                        // both kings; the one concerned at home or one file aside
+                        let (wk, bk) = (if white && !king_at_home { 3 } else { 4 }, if !white && !king_at_home { 59 } else { 60 });
+                        sq[wk] = b'K';
+                        sq[bk] = b'k';
+                        // the other three corners hold their proper rooks so that only one thing is wrong at a time
+                        for &(_, c2, _, w2) in corners.iter() {
+                            sq[c2] = if w2 { b'R' } else { b'r' };
+                        }
+                        let own = |c: u8| if white { c.to_ascii_uppercase() } else { c.to_ascii_lowercase() };
+                        let enemy = |c: u8| if white { c.to_ascii_lowercase() } else { c.to_ascii_uppercase() };
+                        sq[corner] = match content {
+                            0 => own(b'r'),
+                            1 => enemy(b'r'),
+                            2 => own(b'n'),
+                            3 => own(b'q'),
+                            _ => b'.',
+                        };
+                        // a blocker next to the corner so that an enemy rook there gives no check along the back rank
+                        let blocker = if corner % 8 == 0 { corner + 1 } else { corner - 1 };
+                        sq[blocker] = own(b'n');
+                        let _ = khome;
+                        for white_to_move in [true, false] {
+                            let txt = fen_of(&sq, white_to_move, bit | extra_rights, None, 0, 1);
+                            emit(out, "castle-corner-grid", txt.as_bytes(), &mut rng);
+                        }
+                    }
+                }
+            }
+        }
     }
     // builder: arbitrary assemblies, accepted ones must be valid too
     for _ in 0..(if thorough { 100_000 } else { 5_000 }) {
